@@ -116,6 +116,21 @@ theorem zip_refines (it : Iter) (a1 a2 : ArraySized) (c : Spec.SSeq.ZipCursor El
   · exact Or.inl ⟨h1, h2⟩
   · exact Or.inr ⟨h1, h5, h6⟩
 
+/-- zip iterator with the **same array on both sides** (`ar1 == ar2`, not excluded by the API):
+`zip_iter_add` inserts both elements at the cursor — the second in front of the first — and steps over
+them, or (allocation refused / size limit, also inside the second `add_at`: repair A11) changes
+nothing observable: content and cursor as before -/
+theorem zip_same_array_add (it : Iter) (a : ArraySized) (e1 e2 : Buf Nat) (m : Mem) (h : a.Inv)
+    (he1 : e1.length = a.dataLen) (he2 : e2.length = a.dataLen) (hi : it.index ≤ a.size) :
+    ((zipAddSame it a e1 e2 m).1 = .ok ∧
+      (zipAddSame it a e1 e2 m).2.2.1.abs = (a.abs.insertIdx it.index e1).insertIdx it.index e2 ∧
+      (zipAddSame it a e1 e2 m).2.1 = { it with index := it.index + 1 } ∧ (zipAddSame it a e1 e2 m).2.2.1.Inv) ∨
+    ((zipAddSame it a e1 e2 m).1 ≠ .ok ∧ (zipAddSame it a e1 e2 m).2.2.1.abs = a.abs ∧
+      (zipAddSame it a e1 e2 m).2.1 = it ∧ (zipAddSame it a e1 e2 m).2.2.1.Inv) := by
+  rcases zipAddSame_spec it a e1 e2 m h he1 he2 hi with ⟨h1, h2, h3, h4, _⟩ | ⟨h1, h2, h3, h4, _⟩
+  · exact Or.inl ⟨h1, h2, h3, h4⟩
+  · exact Or.inr ⟨by rcases h1 with h1 | h1 <;> rw [h1] <;> simp, h2, h3, h4⟩
+
 /-- the lock-step cursor stops at the shorter sequence -/
 theorem spec_zip_stops_at_shorter (c : Spec.SSeq.ZipCursor Elem) (h : c.todo1 = [] ∨ c.todo2 = []) :
     c.next = (.iterEnd, none, c) := by
